@@ -183,7 +183,7 @@ class World (object):
     self.violated = None          # (key, text) - latched: pox swallows exceptions
     self.hist = []
     self.oplog = []               # observations made during the current operation
-    self.calls = 0                # calls into core (top-level + chained)
+    self.calls = 0                # calls into core made by the current operation (top-level + chained)
     self.nops = 0
     self.vtime = 0.0
     self.later = []
@@ -282,7 +282,6 @@ class World (object):
   # ---- listeners on core ---------------------------------------------------
   def _life (self, name):
     def h (event):
-      reg = tuple(sorted(self.core.components))
       self.oplog.append(("life", name))
       self.note("  event %s", name)
       err = self.model.observe(name)
@@ -528,7 +527,7 @@ class World (object):
     return "quit()"
 
   def do_op (self, op):
-    self.cur_op = op; self.oplog = []; self.chained = False
+    self.cur_op = op; self.oplog = []; self.chained = False; self.calls = 0
     self.nops += 1
     self.hist.append(("op", op))
     try:
@@ -612,11 +611,14 @@ def make_run (P, prm, limit, check_from=0):
 # breadth-first over canonical states; explore() enumerates one-operation successors
 # ---------------------------------------------------------------------------------------
 def params (cfg):
-  if cfg.quick:
-    return dict(nc=3, maxp=3, depth=5, dev=2, sinks=[0, 1, 2, 3, 4], goup=GOUP_VARIANTS,
-                forms=(("str",), ("list",)))
-  return dict(nc=4, maxp=5, depth=6, dev=3, sinks=[0, 1, 2, 3, 4, 5], goup=GOUP_VARIANTS,
+  """One or more alphabets/bounds; each is explored completely."""
+  q = dict(nc=3, maxp=3, depth=5, dev=2, sinks=[0, 1, 2, 3, 4], goup=GOUP_VARIANTS,
+           forms=(("str",), ("list",)))
+  if cfg.quick: return [q]
+  deep = dict(q, maxp=4, depth=7)
+  wide = dict(nc=4, maxp=5, depth=4, dev=3, sinks=[0, 1, 2, 3, 4, 5], goup=GOUP_VARIANTS,
               forms=(("str", "list"), ("list", "tuple", "set")))
+  return [deep, wide]
 
 
 def public (prm):
@@ -650,34 +652,47 @@ def _expand (args):
   return rep, succ
 
 
+RULE = ("breadth-first over canonical states of a real POXCore: every history of <=DEPTH operations from "
+        "{register(c) incl. re-registration; call_when_ready(cb, every subset of the components in the given argument "
+        "forms, the empty set as set()/default []/()); listen_to_dependencies(one of the sink classes: underscore "
+        "component names, explicit components, short attrs, dependency on core, with/without completion callback); "
+        "goUp with GoingUp handlers %s (I: deferral released inside the handler, L: released by a later operation, "
+        "every order); release; quit (<=2); run of a thread spawned by quit()}, at most MAXP pending waiters; every "
+        "waiter callback invoked picks one of {return, raise, register an unregistered component, declare a further "
+        "waiter on one component}, sink completion callbacks {return, raise}, <=DEV non-default picks per history. "
+        "One representative history per distinct (state, fewest deviations) is extended; state = components, "
+        "_waiters in order, running/starting_up/deferrals/scheduler flags, outstanding deferrals, parked quit threads, "
+        "sink wiring incl. stale bindings, event log, model state. After every new operation every component object "
+        "ever registered is probed with an event. distinct = (operation, observations, verdict) digests. "
+        "Configurations: %s")
+
+
 def run (cfg):
   P = _import()
-  prm = params(cfg)
   rep = Report(PID, "model_checking")
-  rep.rule = ("breadth-first over canonical states of a real POXCore: every history of <=%d operations from "
-              "{register(c) incl. re-registration, c in %s; call_when_ready(cb, every subset of the components, "
-              "argument forms %s, empty set as set()/default []/()); listen_to_dependencies(one of %d sink classes: "
-              "underscore component names, explicit components, short attrs, dependency on core); goUp with GoingUp "
-              "handlers %s (I: deferral released inside the handler, L: released by a later operation, every order); "
-              "release; quit (<=2); run of a thread spawned by quit()}, at most %d pending waiters; every waiter "
-              "callback invoked picks one of {return, raise, register an unregistered component, declare a further "
-              "waiter on one component}, sink completion callbacks {return, raise}, <=%d non-default picks per "
-              "history. One representative history per distinct state (components, _waiters in order, running/"
-              "starting_up/deferrals/scheduler flags, outstanding deferrals, parked quit threads, sink wiring incl. "
-              "stale bindings, event log, model state) and deviation count is extended. After every operation every "
-              "component object ever registered is probed with an event. distinct = (operation, observations, "
-              "verdict) digests"
-              % (prm["depth"], NAMES[:prm["nc"]], prm["forms"], len(prm["sinks"]), prm["goup"], prm["maxp"], prm["dev"]))
-  rep.bound = dict(depth=prm["depth"], deviations=prm["dev"], components=prm["nc"], pending_waiters=prm["maxp"],
-                   sinks=len(prm["sinks"]))
+  prms = params(cfg)
+  rep.rule = RULE % (GOUP_VARIANTS, "; ".join(
+    "components=%s DEPTH=%d MAXP=%d DEV=%d sinks=%s forms=%s"
+    % (NAMES[:p["nc"]], p["depth"], p["maxp"], p["dev"], [P.SINKS[k][0] for k in p["sinks"]], p["forms"]) for p in prms))
+  rep.bound = dict(configurations=[dict(depth=p["depth"], deviations=p["dev"], components=p["nc"],
+                                        pending_waiters=p["maxp"], sinks=len(p["sinks"])) for p in prms])
   rep.assumptions = [
     "threads spawned by quit() run atomically between operations (fine-grained interleaving is the E-thr scenario)",
-    "the scheduler thread is absent: scheduler.callLater is queued and run by the virtual sleep; scheduler.quit is a stub",
+    "the scheduler thread is absent: scheduler.callLater is queued and run by the virtual sleep; scheduler.quit is a stub; gc.collect is a no-op",
     "merged states have equal futures: the digest covers the whole mutable state of the core object, the harness and the model",
     "a chained registration inside a callback only registers a not yet registered component",
     "the order among several simultaneously ready waiters is unconstrained",
+    "UpEvent after a quit, and UpEvent at the release instant inside a GoingUp handler vs. at the end of goUp, are unconstrained",
     "exploration of a history stops at its first violation",
   ]
+  rep.extra["new_states_per_level"] = []
+  for prm in prms:
+    levels = bfs(cfg, prm, rep)
+    rep.extra["new_states_per_level"].append(levels)
+  return rep
+
+
+def bfs (cfg, prm, rep):
   best = {}                # state digest -> fewest deviations it was reached with
   frontier = [[]]
   levels = []
@@ -686,7 +701,7 @@ def run (cfg):
     nb = max(1, min(len(frontier), cfg.workers * 4))
     size = max(1, min(64, (len(frontier) + nb - 1) // nb))
     batches = [frontier[i:i + size] for i in range(0, len(frontier), size)]
-    items = [(prm, level, last, b) for b in batches]
+    items = [(public(prm), level, last, b) for b in batches]
     cand = {}
     for r, succ in pmap(_expand, items, cfg.workers, seed=cfg.seed):
       rep.merge(r)
@@ -699,11 +714,9 @@ def run (cfg):
       if best.get(st, 1 << 30) <= used: continue
       best[st] = used
       frontier.append(choices)
-    levels.append(len(frontier))
+    if not last: levels.append(len(frontier))
     if not frontier: break
-  rep.extra["new_states_per_level"] = levels
-  rep.extra["closed"] = bool(levels and levels[-1] == 0 and len(levels) < prm["depth"])
-  return rep
+  return levels
 
 
 def replay (cfg, data):
